@@ -44,7 +44,9 @@ def run(chk):
     for p in progs[-1:]:
         p["vals"] = [("int", 5), ("int", 1), ("none",), ("none",)]
     progs += cc.make_progs(rng, n1, ["setx", "exn", "raise"], 1, 5)            # the fragment of the theorem
-    progs += cc.make_progs(rng, n2, ["setx", "exn", "raise", "while", "try"], 1, 4)   # + forms only modelled
+    progs += cc.make_progs(rng, n2, ["setx", "exn", "raise", "while", "try"], 1, 4)
+    # let, as a renaming of fresh model variables (may shadow outer names): behaviour only
+    progs += cc.make_progs(rng, n2 // 2, ["setx", "exn", "raise", "try", "let"], 2, 4)
     cc.annotate(progs)
     chk.count("programs in which Result.rename fires", sum(1 for p in progs if p["extra"]["renames"]))
     chk.rule = ("grammar-directed programs of depth 1-5 over const/var/(log k e)/do/setv/setx/and/or/not/if/raise (half) "
